@@ -350,6 +350,84 @@ def copy_chain(exe, root, seed, stats):
     a.destroy()
     return [('%s; %s' % (problem, cfg), '%s\n%s\nhistory:\n%s' % (problem, cfg, hist))] if problem else None
 
+def restore_links(exe, root, seed, stats):
+    """files with hard links (and symlinks beside them) restored from a backup: same paths, sizes and time-stamps, NEW inodes
+    (cp -a back), some of them only partly (one name of a pair), in every scan order, with and without usable inodes: after
+    the sync diff must exit 0, list must show exactly the files and links present, check must pass"""
+    rng = e2e.Rng(seed)
+    order = rng.choice(['--test-force-order-alpha', '--test-force-order-inode', '--test-force-order-dir', '--test-force-order-physical'])
+    opts = [o for o in e2e.BASE_OPTS if not o.startswith('--test-force-order')] + [order]
+    if rng.chance(1, 4): opts = [o for o in opts if o != '--test-fake-uuid']
+    a = e2e.Arr(root, exe, ndisks=1 + rng.below(2), nparity=1, ncontent=1, hashsize=16)
+    s = sim.Sim(a, rng.fork(), weird_names=False)
+    s.populate(2)
+    groups = []
+    for g in range(1 + rng.below(3)):
+        d = rng.choice(a.disks)
+        names = rng.choice([['a_first', 'z_link'], ['z_first', 'a_link'], ['m/a', 'm/b', 'c'], ['k1', 'k2']])
+        names = ['hl%d/%s' % (g, n) for n in names]
+        a.write(d, names[0], rng.bytes(1 + rng.below(3 * a.block)), s.tick())
+        for n in names[1:]:
+            os.makedirs(os.path.dirname(a.path(d, n)), exist_ok=True)
+            os.link(a.path(d, names[0]), a.path(d, n))
+        if rng.chance(1, 2): os.symlink('a_first', a.path(d, 'hl%d/sym' % g))
+        groups.append((d, names))
+    if s.sync(opts=opts).rc != 0:
+        a.destroy(); return None
+    for d, names in groups:
+        k = rng.below(4)
+        src = a.path(d, names[0]); st = os.stat(src); data = open(src, 'rb').read()
+        if k == 3: continue
+        order_n = names if rng.chance(1, 2) else names[::-1]
+        # the new copy is written while the old inode still exists, so that it cannot get the same inode number
+        tmpn = a.path(d, 'hl_restore.tmp')
+        with open(tmpn, 'wb') as f: f.write(data)
+        os.utime(tmpn, ns=(st.st_mtime_ns, st.st_mtime_ns))
+        for n in names: os.unlink(a.path(d, n))
+        os.rename(tmpn, a.path(d, order_n[0]))
+        if k == 0:        # the whole group comes back as hard links of the new inode
+            for n in order_n[1:]: os.link(a.path(d, order_n[0]), a.path(d, n))
+            s.log('group %s restored with a new inode (first created: %s)' % (names, order_n[0]))
+        elif k == 1:      # every name comes back as an independent file (the backup did not keep hard links)
+            keepino = open(a.path(d, 'hl_keep.tmp'), 'wb'); keepino.close()
+            for n in order_n[1:]:
+                with open(a.path(d, n), 'wb') as f: f.write(data)
+                os.utime(a.path(d, n), ns=(st.st_mtime_ns, st.st_mtime_ns))
+            os.unlink(a.path(d, 'hl_keep.tmp'))
+            s.log('group %s restored as independent files' % names)
+        else:             # only one name comes back
+            s.log('group %s: only %s restored' % (names, order_n[0]))
+    stats['restore_links'] = stats.get('restore_links', 0) + 1
+    r = s.sync(opts=opts)
+    cfg = 'restore-links ndisks=%d order=%s uuid=%s seed=%d' % (a.ndisks, order.split('-')[-1], '--test-fake-uuid' in opts, seed)
+    problem = None
+    if r.rc == 0:
+        d2 = s.run('diff', opts=opts)
+        if d2.rc != 0:
+            problem = '[restore-links] after a successful sync diff exits %d (%s)' % (d2.rc, {k: d2.summary(k) for k in ('added', 'removed', 'updated', 'moved', 'copied', 'restored')})
+        else:
+            lst = a.cmd('list', opts=opts)
+            nfile = sum(1 for t in lst.tags if t.startswith('file:'))
+            nlink = sum(1 for t in lst.tags if t.startswith('link_'))
+            # every inode of the disks is one file record, every further name of it and every symlink one link record
+            want_f = want_l = 0
+            for d in a.disks:
+                seen = set()
+                for dp, dn, fn in os.walk(a.ddir(d)):
+                    for n in fn:
+                        q = os.path.join(dp, n); stq = os.lstat(q)
+                        if os.path.islink(q): want_l += 1
+                        elif stq.st_ino in seen: want_l += 1
+                        else: seen.add(stq.st_ino); want_f += 1
+            if (nfile, nlink) != (want_f, want_l):
+                problem = '[restore-links] list after sync shows %d files and %d links, the disks hold %d files and %d links (hard links and symlinks)' % (nfile, nlink, want_f, want_l)
+            else:
+                c = a.cmd('check', opts=opts)
+                if c.rc != 0: problem = '[restore-links] check fails after a successful sync (exit %d)' % c.rc
+    hist = '\n'.join(s.history)
+    a.destroy()
+    return [('%s; %s' % (problem, cfg), '%s\n%s\nhistory:\n%s' % (problem, cfg, hist))] if problem else None
+
 def main(tier, seed):
     chk = vlib.Check('C11', 'proof', tier, seed)
     chk.assumptions = ['the classification model covers regular files; hardlinks, links and empty directories are judged by the end-to-end predicates only',
@@ -372,7 +450,7 @@ def main(tier, seed):
         return scenario(exe, os.path.join(vlib.scratch(), 'sc%d' % i), seed * 100000 + 99000 + i, stats)
     ncc = 24 if tier == 'quick' else 240
     with ThreadPoolExecutor(vlib.NCPU) as ex:
-        res = list(ex.map(job, range(n))) + list(ex.map(lambda i: copy_chain(exe, os.path.join(vlib.scratch(), 'cc%d' % i), seed * 100000 + 99500 + i, stats), range(ncc)))
+        res = list(ex.map(job, range(n))) + list(ex.map(lambda i: copy_chain(exe, os.path.join(vlib.scratch(), 'cc%d' % i), seed * 100000 + 99500 + i, stats), range(ncc))) + list(ex.map(lambda i: restore_links(exe, os.path.join(vlib.scratch(), 'rl%d' % i), seed * 100000 + 99700 + i, stats), range(ncc)))
     k = 0
     for r in res:
         if r:
@@ -384,7 +462,7 @@ def main(tier, seed):
             chk.violation('C11 static obligation failed: ' + o[0], o[0] + '\n' + o[2], False, 'static')
     chk.evaluations = stats['diffs'] + stats['syncs']
     chk.distinct = stats['diffs']
-    chk.rule = ('%d arrays x 4 rounds of 0-5 operations {create, overwrite same size, append, truncate, delete, rename, move across disks, copy, copy-over, touch, file->dir, file->link, swapped names, delete+create, link retarget} under a random scan order (alpha/inode/dir/physical) with or without usable UUIDs; diff must exit 2 exactly when the Lean classification of the walk against the decoded content finds a non-equal entry, a removed file, a link change or an incomplete previous sync; after a successful sync diff exits 0, list equals the files/links present with sizes and time-stamps, check passes' % n)
+    chk.rule = ('%d arrays x 4 rounds of 0-5 operations {create, overwrite same size, append, truncate, delete, rename, move across disks, copy, copy-over, touch, file->dir, file->link, swapped names, delete+create, link retarget} under a random scan order (alpha/inode/dir/physical) with or without usable UUIDs; diff must exit 2 exactly when the Lean classification of the walk against the decoded content finds a non-equal entry, a removed file, a link change or an incomplete previous sync; after a successful sync diff exits 0, list equals the files/links present with sizes and time-stamps, check passes; plus copy-chain and restore-links families (hard-linked groups and symlinks restored from a backup with new inodes: whole, as independent files, or one name only)' % n)
     chk.samples = [dict(stats)]
     chk.corr['E2E-SCAN'] = dict(stats)
     chk.finish()
